@@ -78,7 +78,7 @@ CLAIMED = {
         note=NOTE + "serde_json (Value, Number, Map ordering, to_value: hand-modelled as json_of and compared on every captured value), the host's float conversions (parameters of the model; OCaml floats in the runner; the theorem assumes only narrow (widen b) = b), the control structure of the two walks (hand-modelled, compared on every run)",
         design="8 (C17)"),
     'C18': dict(
-        text="C18_decode_total: for every well-formed schema tree and every byte string from_slice_dyn's model never panics (no todo!/unreachable arm in the translated table, no over-wide shift in the private varint reader, every take_one/take_n/get checked) and every remainder it passes on is a suffix of the input; C18_encode_total: to_stdvec_dyn's model never panics for every schema and every JSON value; C18_private_reader: the private varint reader = the reference reader of the wire format. Partial: the allocation bound and the re-encode clause are FALSE on the unchanged tree for three classes (C18_allocation_bound_refuted, C18_reencode_refuted_option, C18_reencode_refuted_duplicate_fields = known findings F9, F7, F8) and are otherwise decided by the harness (counting allocator; decode + re-encode of everything the encoder accepts) and the model comparison on ~18k cases per run.",
+        text="C18_decode_total: for every well-formed schema tree and every byte string from_slice_dyn's model never panics (no todo!/unreachable arm in the translated table, no over-wide shift in the private varint reader, every take_one/take_n/get checked) and every remainder it passes on is a suffix of the input; C18_encode_total: to_stdvec_dyn's model never panics for every schema and every JSON value; C18_private_reader: the private varint reader = the reference reader of the wire format. C18_reencode: for every well-formed schema of any depth outside the classes of F7/F8 (reenc_scope) and every JSON value serde_json can hold (json_wf: UTF-8 strings, ascending keys, finite floats, at most 65536 entries per array/object), whatever to_stdvec_dyn's model accepts, from_slice_dyn's model decodes and re-encodes to the same bytes (induction over the schema; float conversions of the host enter as three hypotheses); reenc_scope and json_wf are tied to the harness's own classification and to every generated serde_json value by the correspondence (op reencscope). Partial: the allocation bound and the re-encode clause are FALSE on the unchanged tree for three classes (C18_allocation_bound_refuted, C18_reencode_refuted_option, C18_reencode_refuted_duplicate_fields = known findings F9, F7, F8); the allocation bound outside F9 is decided by the harness (counting allocator) and the model's DUnbounded outcome on ~18k cases per run, not by a theorem.",
         note=NOTE + "serde_json, the host's float conversions (parameters of the model), the allocator; the control structure of the two walks is hand-modelled and compared with the crate on every run",
         design="8 (C18)"),
     'C19': dict(
